@@ -123,7 +123,8 @@ func (s *LinkedLog) Read(offset uint64) ([]OffsetAndSizeAndSlot, indexes.OffsetA
 	if n <= 0 {
 		return nil, indexes.OffsetAndSize{}, errors.New("invalid compacted indexes length")
 	}
-	return s.ReadWithSize(offset, compactedIndexesLen)
+	// ReadWithSize expects the total record length (prefix + payload).
+	return s.ReadWithSize(offset, uint64(n)+compactedIndexesLen)
 }
 
 func sizeOfUvarint(n uint64) int {
@@ -135,12 +136,19 @@ func (s *LinkedLog) ReadWithSize(offset uint64, size uint64) ([]OffsetAndSizeAnd
 		return nil, indexes.OffsetAndSize{}, fmt.Errorf("compacted indexes length too large: %d", size)
 	}
 	// debugln("compactedIndexesLen:", compactedIndexesLen)
-	// Read the compressed indexes
-	data := make([]byte, size-uint64(sizeOfUvarint(size))) // The size bytes have already been read.
-	_, err := s.file.ReadAt(data, int64(offset)+int64(sizeOfUvarint(size)))
+	// `size` is the total length of the record, length prefix included. The width
+	// of the prefix depends on the payload length (not on the total length), so
+	// read the whole record and decode the prefix instead of guessing its width.
+	record := make([]byte, size)
+	_, err := s.file.ReadAt(record, int64(offset))
 	if err != nil {
 		return nil, indexes.OffsetAndSize{}, err
 	}
+	payloadLen, prefixLen := binary.Uvarint(record)
+	if prefixLen <= 0 || uint64(prefixLen)+payloadLen != size || payloadLen < 9 {
+		return nil, indexes.OffsetAndSize{}, fmt.Errorf("invalid record at offset %d: size=%d payload length=%d", offset, size, payloadLen)
+	}
+	data := record[prefixLen:] // The size bytes have already been read.
 	// debugln_(func() []any { return []any{"data:", bin.FormatByteSlice(data)} })
 	// the indexesBytes are up until the last 8 bytes, which are the `next` offset.
 	indexesBytes := data[:len(data)-9]
